@@ -140,3 +140,14 @@
         lemma_verify_spec_indep(res, pk, pk2, pk_t1_vec(pkb@, K as int), mu, sig@, BETA as int, GAMMA1 as int, GAMMA2 as int, OMEGA as int, TAU as int, LAMBDA_DIV4 as int);
         lemma_verify_spec_det(res, res2, pk2, mu, sig@, BETA as int, GAMMA1 as int, GAMMA2 as int, OMEGA as int, TAU as int, LAMBDA_DIV4 as int);
     }
+    // C03: the signature is a function of (private key, message, context, mode, rnd): two signatures satisfying the signing postconditions
+    // for the same inputs and randomness are byte-identical
+    pub proof fn lemma_c03_det_api(sk: PrivateKey, message: Seq<u8>, ctx: Seq<u8>, oid: Seq<u8>, phm: Seq<u8>, rnd: Seq<u8>, sig1: [u8; SIG_LEN], sig2: [u8; SIG_LEN])
+        requires sk.sign_with(message, ctx, oid, phm, rnd, sig1), sk.sign_post(message, ctx, oid, phm, sig1),
+            sk.sign_with(message, ctx, oid, phm, rnd, sig2), sk.sign_post(message, ctx, oid, phm, sig2),
+        ensures sig1@ == sig2@,
+    {
+        lemma_params();
+        let mu = spec_mu(sk.tr@, message, ctx, oid, phm, false);
+        lemma_sign_spec_det(sig1@, sig2@, sk, mu, rnd, BETA as int, GAMMA1 as int, GAMMA2 as int, OMEGA as int, TAU as int, LAMBDA_DIV4 as int);
+    }
